@@ -277,6 +277,14 @@ def r4_neutrality(ctx: Ctx, eng: Decider) -> None:
         if filt is None:
             ctx.unknown('C02.R4', d.fi, f'candidate list of {src(s)[:50]!r} is not a comprehension over the matching rules', s)
         conds = [src(c) for g in filt.generators for c in g.ifs]
+        # candidates drawn from a list that was itself filtered on has-category (computed once, then narrowed per field)
+        for g_ in filt.generators:
+            if isinstance(g_.iter, ast.Name):
+                for dn in d.cfg.defs_reaching(s, g_.iter.id):
+                    if dn != 'param':
+                        uv = getattr(d.cfg.stmt[dn], 'value', None)
+                        if isinstance(uv, (ast.ListComp, ast.GeneratorExp)):
+                            conds += [src(c) for g2 in uv.generators for c in g2.ifs]
         has_cat = any(('is_categorization_rule' in c or '.category' in c) and 'subcategory' not in c.replace('.subcategory', '') or 'is_categorization_rule' in c for c in conds)
         has_cat = any('is_categorization_rule' in c or _reads_attr(c, 'category') for c in conds)
         for fld in sorted(fed):
@@ -295,6 +303,27 @@ def r4_neutrality(ctx: Ctx, eng: Decider) -> None:
         if isinstance(s, ast.Assign) and any(isinstance(t, ast.Attribute) and t.attr == 'matched' for t in s.targets):
             g = d.guard_texts(s)
             ok = any(truth and (t.startswith('first') or 'category_rules' in t) for t, truth in g)
+            if not ok:
+                # the guard may be a list filtered on has-category, or a winner taken from such a list
+                cat_lists = set()
+                for _pass in range(3):
+                    for s2 in d.cfg.stmts():
+                        if isinstance(s2, ast.Assign) and len(s2.targets) == 1 and isinstance(s2.targets[0], ast.Name) and isinstance(s2.value, (ast.ListComp, ast.GeneratorExp)):
+                            cs = [src(c) for g2 in s2.value.generators for c in g2.ifs]
+                            its = [g2.iter.id for g2 in s2.value.generators if isinstance(g2.iter, ast.Name)]
+                            if any('is_categorization_rule' in c or _reads_attr(c, 'category') for c in cs) or any(i in cat_lists for i in its):
+                                cat_lists.add(s2.targets[0].id)
+                for t, truth in g:
+                    if not truth:
+                        continue
+                    if t in cat_lists:
+                        ok = True
+                    elif t.isidentifier():
+                        dvals = [getattr(d.cfg.stmt[dn], 'value', None) for dn in d.cfg.defs_reaching(s, t) if dn != 'param']
+                        dvals = [v for v in dvals if v is not None and not (isinstance(v, ast.Constant) and v.value is None)]
+                        if dvals and all(isinstance(v, ast.Call) and call_name(v) in ('max', 'min', 'next', 'sorted') and v.args and isinstance(v.args[0], ast.Name) and v.args[0].id in cat_lists
+                                         for v in dvals):
+                            ok = True
             ctx.check(ok, 'C02.R4', d.fi, f'matched-flag', 'result.matched is set only with a categorizing winner',
                       f'result.matched = True under {sorted(g)}: a tag-only match would count as categorized', s)
 
